@@ -10,3 +10,5 @@ void reg_sock();
 void reg_srv();
 void reg_copier();
 void reg_auth();
+void reg_lauth();
+void reg_slot();
